@@ -44,8 +44,10 @@ VRT_SCENARIO(uc, "producer/consumer hand-off on one Future/Promise pair") {
     p2.emplace(std::move(pp));
   }
 
+  vh::Gate gate;
   ctx.Spawn("P", [&] {
     vrt::Api api{"Set"};
+    gate.Pass();
     if (prod == "val") {
       std::move(p).Set(Payload{7});
     } else if (prod == "err") {
